@@ -269,7 +269,7 @@ func c03Gen() *rapid.Generator[c03Case] {
 		op := rapid.SampledFrom(c03Ops).Draw(t, "op")
 		fsOp := op == "mkdir" || op == "verify"
 		var names *rapid.Generator[string]
-		if fsOp || op == "walk" || op == "walkiter" {
+		if fsOp {
 			names = sampled(validElemPool())
 		} else {
 			names = genNameMix(poolTiny, poolSyntax, poolUnicode, poolEncoding, poolHostilePathItems(), nil)
